@@ -182,15 +182,67 @@ def shard(col, shard_i, ngrammars, ninputs):
         col.sample(cases[len(cases) // 2].describe())
 
 
+# ---- nameguard x namechars: the same tokens under different configurations, interleaved in one process ----------------
+NG_TOKENS = ['a-b', 'end-if', 'x$', 'a_b', 'if', 'a', '$', '-', 'if-', '_a']
+
+
+def shard_namechars(col, shard_i, n):
+    mr = ModelRun('Engine')
+    rng = col.rng
+    cases = []
+    for _ in range(n):
+        toks = rng.sample(NG_TOKENS, rng.randint(1, 3))
+        alts = [('seq', [('tok', t), ('named', False, 'rest', ('pat', r'[\w$-]*'))]) for t in toks]
+        g = {'rules': [('start', [], ('seq', [('choice', alts), 'eof']))], 'directives': {}, 'keywords': []}
+        # the same grammar body under several namechars / nameguard configurations, in random order (a stale answer kept from an
+        # earlier configuration shows as a divergence)
+        cfgs = []
+        for _c in range(rng.randint(2, 4)):
+            nc = rng.choice([None, '', '-', '$', '_-', '-$'])
+            ng = rng.choice([None, None, True, False])
+            cfgs.append((nc, ng, rng.random() < 0.5))
+        texts = []
+        for t in toks:
+            for tail in ['', 'x', '-', '$', '_', '1', ' x', '-x', '$x']:
+                texts.append(t + tail)
+        rng.shuffle(texts)
+        for (nc, ng, as_directive) in cfgs:
+            g2 = dict(g)
+            g2['directives'] = {}
+            st = E.Settings()
+            if nc is not None:
+                if as_directive and nc:
+                    g2['directives']['namechars'] = nc
+                else:
+                    settings_extra(st)['namechars'] = nc
+            if ng is not None:
+                if as_directive:
+                    g2['directives']['nameguard'] = str(ng)
+                else:
+                    st.nameguard = ng
+            col.count(f'namechars.{nc!r}.nameguard.{ng}')
+            for t in texts[:12]:
+                cases.append(R.Case(g2, t, None, st, tag='namechars'))
+    R.differential(col, mr, cases, 'E1input:namechars')
+
+
 # ---- K1: Config layering, real ParserConfig / Grammar vs Config.v -----------------------------------------
-FIELDS = ['nameguard', 'ignorecase', 'parseinfo', 'left_recursion', 'namechars', 'comments', 'memoization']
+FIELDS = ['nameguard', 'ignorecase', 'parseinfo', 'left_recursion', 'namechars', 'comments', 'memoization', 'eol_comments', 'whitespace']
+# falsy values that are NOT erasers ('' and False) next to the erasing None
 VALUES = {'nameguard': [None, True, False], 'ignorecase': [None, True, False], 'parseinfo': [None, True, False],
-          'left_recursion': [None, True, False], 'namechars': [None, '-', '$'], 'comments': [None, 'C1', 'C2'],
-          'memoization': [None, True]}
+          'left_recursion': [None, True, False], 'namechars': [None, '-', '$', ''], 'comments': [None, 'C1', 'C2', ''],
+          'memoization': [None, True], 'eol_comments': [None, 'C1', 'C2', ''], 'whitespace': [None, 'C1', '', '']}
+CODES = {True: 1, False: 2, '-': 3, '$': 4, 'C1': 5, 'C2': 6, '': 7}
 
 
 def enc(v):
-    return None if v is None else {True: 1, False: 2, '-': 3, '$': 4, 'C1': 5, 'C2': 6}[v]
+    from tatsu.util.undefined import Undefined
+    return None if v is None or v is Undefined else CODES[v]
+
+
+def enc_known(v):
+    from tatsu.util.undefined import Undefined
+    return v is Undefined or (isinstance(v, (bool, str)) and v in CODES)
 
 
 def shard_layer(col, shard_i, n):
@@ -236,13 +288,13 @@ def shard_layer(col, shard_i, n):
         col.case(['layer', str(ct), str(dr), str(pt)], nontrivial=bool(ct or dr or pt))
         col.count('layer.cases')
         for f in FIELDS:
-            iv = enc(impl[f]) if impl[f] in (None, True, False, '-', '$', 'C1', 'C2') else -1
+            iv = enc(impl[f]) if impl[f] is None or enc_known(impl[f]) else -1
             mv = model.get(f)
             # __post_init__ couplings: memoization off forces left_recursion off; namechars forces nameguard on
             if f == 'left_recursion' and not impl['memoization']:
                 continue
-            if f == 'nameguard' and impl['namechars']:
-                continue
+            if f == 'nameguard' and (impl['namechars'] or any(d.get('namechars') for d in (ct, dr, pt))):
+                continue      # the coupling is applied by every layer's __post_init__, so it sticks once any layer names namechars
             if iv != mv:
                 col.violation(f'K1:layering:{f}', f'effective {f} differs from first-defined-wins layering',
                               {'correspondence': 'K1 Config.v vs ParserConfig', 'compile_time': str(ct), 'directives': str(dr),
@@ -281,6 +333,23 @@ def layering_api(col):
             col.violation(f'api:compile-time-setting-ignored:{name}',
                           f'tatsu.compile(grammar, {name}=...) has no effect on the compiled model',
                           {'oracle': 'layering through the API', 'setting': name, 'call': f'tatsu.compile(g, **{kw}).parse({text!r})'})
+    # an explicit parse-time '' is a setting like any other: it beats the directive (it is not an "erasing" value)
+    offs = {
+        'comments': ("@@comments :: /\\(\\*.*?\\*\\)/\nstart = 'if' 'x' ;", 'if (* c *) x', {'comments': ''}),
+        'eol_comments': ("@@eol_comments :: /#[^\\n]*/\nstart = 'if' 'x' ;", 'if # c\n x', {'eol_comments': ''}),
+        'whitespace': ("@@whitespace :: /[ ]+/\nstart = 'if' 'x' ;", 'if x', {'whitespace': ''}),
+        'namechars': ("@@namechars :: '-'\n@@nameguard :: True\nstart = 'if' /-x/ ;", 'if-x', {'namechars': ''}),
+    }
+    for name, (gd, text, kw) in offs.items():
+        col.case(['api-layer-off', name], nontrivial=True)
+        with_directive = accepts(lambda: tatsu.compile(gd).parse(text))
+        switched_off = accepts(lambda: tatsu.compile(gd).parse(text, **kw))
+        expect = (True, False) if name != 'namechars' else (False, True)
+        if (with_directive, switched_off) != expect:
+            col.violation(f'api:empty-setting-does-not-override-directive:{name}',
+                          f"parse-time {name}='' does not override the @@{name} directive",
+                          {'oracle': 'layering through the API', 'grammar': gd, 'text': text, 'setting': kw,
+                           'accepted_with_directive': with_directive, 'accepted_with_empty_setting': switched_off, 'expected': expect})
     # directives must survive tatsu.parse (defaults of a complete config must not override them)
     for d, probe in {'parseinfo': lambda r: getattr(r, 'parseinfo', None) is not None}.items():
         gd = f"@@{d} :: True\nstart = a:'x' ;"
@@ -324,9 +393,11 @@ def main():
         if chk.quick:
             vlib.run_sharded(chk, shard, 14, extra=(16, 8))
             vlib.run_sharded(chk, shard_layer, 4, extra=(150,))
+            vlib.run_sharded(chk, shard_namechars, 7, extra=(12,))
         else:
             vlib.run_sharded(chk, shard, 28, extra=(50, 10))
             vlib.run_sharded(chk, shard_layer, 14, extra=(1500,))
+            vlib.run_sharded(chk, shard_namechars, 14, extra=(150,))
         vlib.run_sharded(chk, shard_api, 1, procs=1)
         chk.obligation('E1 x input configuration: implementation vs model', 'correspondence',
                        not any(v['signature'].startswith('E1input') for v in chk.violations))
